@@ -8,16 +8,19 @@ import (
 	"unsafe"
 )
 
+//go:norace
 func (s *Sim) shadow(p unsafe.Pointer) *shadowMu {
-	sh := s.mutexes[p]
+	sh := s.mutexes.get(up(p))
 	if sh == nil {
-		sh = &shadowMu{readers: map[*Task]int{}}
-		s.mutexes[p] = sh
+		sh = &shadowMu{}
+		s.mutexes.put(up(p), sh)
 	}
 	return sh
 }
 
 // MuLock replaces (*sync.Mutex).Lock.
+//
+//go:norace
 func MuLock(m *sync.Mutex, id uint32) {
 	s := active.Load()
 	if s == nil {
@@ -38,15 +41,16 @@ func MuLock(m *sync.Mutex, id uint32) {
 	s.syncPoint(t, id)
 	p := unsafe.Pointer(m)
 	for {
-		s.mu.Lock()
+		s.lock()
 		sh := s.shadow(p)
-		free := sh.writer == nil && len(sh.readers) == 0
-		if free && m.TryLock() {
+		free := sh.writer == nil && sh.readers.len() == 0
+		s.unlock()
+		if free && m.TryLock() { // (the real lock is taken outside the simulator's own critical section: the race detector sees it)
+			s.lock()
 			sh.writer = t
-			s.mu.Unlock()
+			s.unlock()
 			return
 		}
-		s.mu.Unlock()
 		if free {
 			// shadow and real state disagree (locked by uninstrumented code): keep yielding
 			t.mismatch++
@@ -62,10 +66,12 @@ func MuLock(m *sync.Mutex, id uint32) {
 }
 
 // abortExit terminates the calling goroutine of an aborted run that cannot make progress.
+//
+//go:norace
 func (s *Sim) abortExit() {
-	s.mu.Lock()
-	t := s.byG[getg()]
-	s.mu.Unlock()
+	s.lock()
+	t := s.byG.get(getg())
+	s.unlock()
 	if t != nil {
 		s.goexit(t)
 	}
@@ -75,6 +81,8 @@ func (s *Sim) abortExit() {
 }
 
 // MuUnlock replaces (*sync.Mutex).Unlock.
+//
+//go:norace
 func MuUnlock(m *sync.Mutex, id uint32) {
 	s := active.Load()
 	if s == nil {
@@ -83,11 +91,11 @@ func MuUnlock(m *sync.Mutex, id uint32) {
 	}
 	t := s.arrive(id)
 	p := unsafe.Pointer(m)
-	s.mu.Lock()
-	if sh := s.mutexes[p]; sh != nil {
+	s.lock()
+	if sh := s.mutexes.get(up(p)); sh != nil {
 		sh.writer = nil
 	}
-	s.mu.Unlock()
+	s.unlock()
 	m.Unlock()
 	if t != nil {
 		s.syncPoint(t, id)
@@ -95,6 +103,8 @@ func MuUnlock(m *sync.Mutex, id uint32) {
 }
 
 // MuTryLock replaces (*sync.Mutex).TryLock.
+//
+//go:norace
 func MuTryLock(m *sync.Mutex, id uint32) bool {
 	s := active.Load()
 	if s == nil {
@@ -107,14 +117,16 @@ func MuTryLock(m *sync.Mutex, id uint32) bool {
 	s.syncPoint(t, id)
 	ok := m.TryLock()
 	if ok {
-		s.mu.Lock()
+		s.lock()
 		s.shadow(unsafe.Pointer(m)).writer = t
-		s.mu.Unlock()
+		s.unlock()
 	}
 	return ok
 }
 
 // RWLock replaces (*sync.RWMutex).Lock.
+//
+//go:norace
 func RWLock(m *sync.RWMutex, id uint32) {
 	s := active.Load()
 	if s == nil {
@@ -135,15 +147,16 @@ func RWLock(m *sync.RWMutex, id uint32) {
 	s.syncPoint(t, id)
 	p := unsafe.Pointer(m)
 	for {
-		s.mu.Lock()
+		s.lock()
 		sh := s.shadow(p)
-		free := sh.writer == nil && len(sh.readers) == 0
-		if free && m.TryLock() {
+		free := sh.writer == nil && sh.readers.len() == 0
+		s.unlock()
+		if free && m.TryLock() { // (the real lock is taken outside the simulator's own critical section: the race detector sees it)
+			s.lock()
 			sh.writer = t
-			s.mu.Unlock()
+			s.unlock()
 			return
 		}
-		s.mu.Unlock()
 		if free {
 			s.park(t, id, wkNone, nil)
 		} else {
@@ -153,6 +166,8 @@ func RWLock(m *sync.RWMutex, id uint32) {
 }
 
 // RWUnlock replaces (*sync.RWMutex).Unlock.
+//
+//go:norace
 func RWUnlock(m *sync.RWMutex, id uint32) {
 	s := active.Load()
 	if s == nil {
@@ -161,11 +176,11 @@ func RWUnlock(m *sync.RWMutex, id uint32) {
 	}
 	t := s.arrive(id)
 	p := unsafe.Pointer(m)
-	s.mu.Lock()
-	if sh := s.mutexes[p]; sh != nil {
+	s.lock()
+	if sh := s.mutexes.get(up(p)); sh != nil {
 		sh.writer = nil
 	}
-	s.mu.Unlock()
+	s.unlock()
 	m.Unlock()
 	if t != nil {
 		s.syncPoint(t, id)
@@ -173,6 +188,8 @@ func RWUnlock(m *sync.RWMutex, id uint32) {
 }
 
 // RWRLock replaces (*sync.RWMutex).RLock.
+//
+//go:norace
 func RWRLock(m *sync.RWMutex, id uint32) {
 	s := active.Load()
 	if s == nil {
@@ -193,15 +210,16 @@ func RWRLock(m *sync.RWMutex, id uint32) {
 	s.syncPoint(t, id)
 	p := unsafe.Pointer(m)
 	for {
-		s.mu.Lock()
+		s.lock()
 		sh := s.shadow(p)
 		free := sh.writer == nil
+		s.unlock()
 		if free && m.TryRLock() {
-			sh.readers[t]++
-			s.mu.Unlock()
+			s.lock()
+			sh.readers.inc(t)
+			s.unlock()
 			return
 		}
-		s.mu.Unlock()
 		if free {
 			s.park(t, id, wkNone, nil)
 		} else {
@@ -211,6 +229,8 @@ func RWRLock(m *sync.RWMutex, id uint32) {
 }
 
 // RWRUnlock replaces (*sync.RWMutex).RUnlock.
+//
+//go:norace
 func RWRUnlock(m *sync.RWMutex, id uint32) {
 	s := active.Load()
 	if s == nil {
@@ -219,26 +239,11 @@ func RWRUnlock(m *sync.RWMutex, id uint32) {
 	}
 	t := s.arrive(id)
 	p := unsafe.Pointer(m)
-	s.mu.Lock()
-	if sh := s.mutexes[p]; sh != nil {
-		g := getg()
-		if t := s.byG[g]; t != nil && sh.readers[t] > 0 {
-			sh.readers[t]--
-			if sh.readers[t] == 0 {
-				delete(sh.readers, t)
-			}
-		} else {
-			// released by another goroutine than the one that acquired it: drop any one reader
-			for r := range sh.readers {
-				sh.readers[r]--
-				if sh.readers[r] == 0 {
-					delete(sh.readers, r)
-				}
-				break
-			}
-		}
+	s.lock()
+	if sh := s.mutexes.get(up(p)); sh != nil {
+		sh.readers.dec(s.byG.get(getg()))
 	}
-	s.mu.Unlock()
+	s.unlock()
 	m.RUnlock()
 	if t != nil {
 		s.syncPoint(t, id)
@@ -249,6 +254,8 @@ func RWRUnlock(m *sync.RWMutex, id uint32) {
 // per-simulation shadow state alone decides, so every run sees every Once (including package-level
 // ones that an earlier run in the same process has already fired) as fresh - the semantics of a
 // fresh process. Concurrent callers park until the running call finishes, as with the real Once.
+//
+//go:norace
 func OnceDo(o *sync.Once, f func(), id uint32) {
 	s := active.Load()
 	if s == nil {
@@ -270,30 +277,32 @@ func OnceDo(o *sync.Once, f func(), id uint32) {
 	}
 	p := unsafe.Pointer(o)
 	for {
-		s.mu.Lock()
-		sh := s.onces[p]
+		s.lock()
+		sh := s.onces.get(up(p))
 		if sh == nil {
 			sh = &shadowOnce{}
-			s.onces[p] = sh
+			s.onces.put(up(p), sh)
 		}
 		if sh.done {
-			s.mu.Unlock()
+			s.unlock()
+			raceAcquire(p) // what the real Once guarantees: the body happens before every Do returns
 			return
 		}
 		if !sh.running {
 			sh.running = true
 			sh.owner = t
-			s.mu.Unlock()
+			s.unlock()
 			defer func() {
-				s.mu.Lock()
+				raceReleaseMerge(p)
+				s.lock()
 				sh.running = false
 				sh.done = true
-				s.mu.Unlock()
+				s.unlock()
 			}()
 			f()
 			return
 		}
-		s.mu.Unlock()
+		s.unlock()
 		if t == nil || sh.owner == t {
 			// re-entrant call: the real Once would deadlock here
 			if t == nil {
@@ -307,12 +316,16 @@ func OnceDo(o *sync.Once, f func(), id uint32) {
 }
 
 // OnceFunc replaces sync.OnceFunc.
+//
+//go:norace
 func OnceFunc(f func()) func() {
 	o := new(sync.Once)
 	return func() { OnceDo(o, f, 0) }
 }
 
 // OnceValue replaces sync.OnceValue.
+//
+//go:norace
 func OnceValue[T any](f func() T) func() T {
 	o := new(sync.Once)
 	var r T
@@ -323,6 +336,8 @@ func OnceValue[T any](f func() T) func() T {
 }
 
 // WgWait replaces (*sync.WaitGroup).Wait.
+//
+//go:norace
 func WgWait(wg *sync.WaitGroup, id uint32) {
 	s := active.Load()
 	if s == nil {
@@ -340,18 +355,24 @@ func WgWait(wg *sync.WaitGroup, id uint32) {
 }
 
 // WgAdd replaces (*sync.WaitGroup).Add.
+//
+//go:norace
 func WgAdd(wg *sync.WaitGroup, n int, id uint32) {
 	Sync(id)
 	wg.Add(n)
 }
 
 // WgDone replaces (*sync.WaitGroup).Done.
+//
+//go:norace
 func WgDone(wg *sync.WaitGroup, id uint32) {
 	Sync(id)
 	wg.Done()
 }
 
 // Send replaces ch <- v.
+//
+//go:norace
 func Send[T any](c chan<- T, v T, id uint32) {
 	s := active.Load()
 	if s == nil {
@@ -369,12 +390,16 @@ func Send[T any](c chan<- T, v T, id uint32) {
 }
 
 // Recv replaces <-ch.
+//
+//go:norace
 func Recv[T any](c <-chan T, id uint32) T {
 	v, _ := Recv2(c, id)
 	return v
 }
 
 // Recv2 replaces v, ok := <-ch.
+//
+//go:norace
 func Recv2[T any](c <-chan T, id uint32) (T, bool) {
 	s := active.Load()
 	if s == nil {
@@ -393,6 +418,8 @@ func Recv2[T any](c <-chan T, id uint32) (T, bool) {
 }
 
 // Close replaces close(ch).
+//
+//go:norace
 func Close[T any](c chan<- T, id uint32) {
 	Sync(id)
 	close(c)
@@ -400,12 +427,18 @@ func Close[T any](c chan<- T, id uint32) {
 
 // ZeroOf returns the zero value of a receive channel's element type (used to declare typed
 // temporaries in rewritten select statements without spelling the type).
+//
+//go:norace
 func ZeroOf[T any](c <-chan T) (z T) { return }
 
 // ElemOf converts v to the element type of a send channel.
+//
+//go:norace
 func ElemOf[T any](c chan<- T, v T) T { return v }
 
 // TryRecv polls one receive case.
+//
+//go:norace
 func TryRecv[T any](c <-chan T) (v T, ok bool, got bool) {
 	select {
 	case v, ok = <-c:
@@ -416,6 +449,8 @@ func TryRecv[T any](c <-chan T) (v T, ok bool, got bool) {
 }
 
 // TrySend polls one send case.
+//
+//go:norace
 func TrySend[T any](c chan<- T, v T) bool {
 	select {
 	case c <- v:
@@ -427,6 +462,8 @@ func TrySend[T any](c chan<- T, v T) bool {
 
 // SelEnter is the scheduling point in front of a rewritten select statement. It returns the order
 // in which the n communication cases are polled.
+//
+//go:norace
 func SelEnter(n int, id uint32) []int {
 	order := make([]int, n)
 	for i := range order {
@@ -451,6 +488,8 @@ func SelEnter(n int, id uint32) []int {
 }
 
 // SelWoke follows the blocking phase of a rewritten select.
+//
+//go:norace
 func SelWoke(id uint32) {
 	s := active.Load()
 	if s == nil {
@@ -460,6 +499,8 @@ func SelWoke(id uint32) {
 }
 
 // MapKeys returns the keys of m in a deterministic order permuted by the tape.
+//
+//go:norace
 func MapKeys[M ~map[K]V, K comparable, V any](m M, id uint32) []K {
 	keys := make([]K, 0, len(m))
 	for k := range m {
@@ -501,6 +542,8 @@ func MapKeys[M ~map[K]V, K comparable, V any](m M, id uint32) []K {
 
 // canon renders a map key so that equal program states render equally in every process:
 // pointers are replaced by first-seen sequence numbers.
+//
+//go:norace
 func (s *Sim) canon(v reflect.Value) string {
 	switch v.Kind() {
 	case reflect.Pointer, reflect.UnsafePointer, reflect.Chan, reflect.Func, reflect.Map:
@@ -508,13 +551,13 @@ func (s *Sim) canon(v reflect.Value) string {
 			return "nil"
 		}
 		p := v.UnsafePointer()
-		s.mu.Lock()
-		id, ok := s.ptrIDs[p]
-		if !ok {
-			id = len(s.ptrIDs) + 1
-			s.ptrIDs[p] = id
+		s.lock()
+		id := s.ptrIDs.get(up(p))
+		if id == 0 {
+			id = s.ptrIDs.len() + 1
+			s.ptrIDs.put(up(p), id)
 		}
-		s.mu.Unlock()
+		s.unlock()
 		return fmt.Sprintf("p%08d", id)
 	case reflect.Interface:
 		if v.IsNil() {
@@ -554,6 +597,8 @@ func (s *Sim) canon(v reflect.Value) string {
 // runs in the same process; code that branches on the capacity of a recycled object would make the
 // run irreproducible. Inside a simulation a pool therefore never recycles (always New), which the
 // sync.Pool contract allows.
+//
+//go:norace
 func PoolGet(p *sync.Pool) any {
 	if active.Load() == nil {
 		return p.Get()
@@ -565,6 +610,8 @@ func PoolGet(p *sync.Pool) any {
 }
 
 // PoolPut replaces (*sync.Pool).Put.
+//
+//go:norace
 func PoolPut(p *sync.Pool, x any) {
 	if active.Load() == nil {
 		p.Put(x)
